@@ -370,6 +370,10 @@ func runC17(c *wk.Ctx) {
 			c17StructMissing(c)
 			return
 		}
+		if idx == 14 {
+			c17NarrowFields(c)
+			return
+		}
 		if idx%5 == 4 {
 			c17StructCase(c, r, idx)
 			return
